@@ -202,6 +202,10 @@ class Ref:
         fn = getattr(self, "t_" + op["op"], None)
         if fn is None:
             return "unknown"
+        # identifiers with whitespace are rejected by the solver interface; what the call does then is not documented
+        if " " in str(op.get("new", "")) or any(" " in str(x.get("id", "")) for x in op.get("rxns", []) + op.get("mets", [])
+                                                  if isinstance(x, dict)):
+            return "unknown"
         return fn(op, env)
 
     def t_set_bounds(self, op, env):
@@ -678,6 +682,55 @@ class Ref:
     def t_remove_groups(self, op, env):
         for gid in op["ids"]:
             self.groups.pop(gid, None)
+        return "ok"
+
+    def t_helper(self, op, env):
+        return "unknown"  # content unchanged (judged by the engine); LP objects recorded from observation
+
+    def t_merge(self, op, env):
+        """Documented: reactions of `right` whose id is new are added (with their metabolites and genes); existing ids
+        are ignored, or - with prefix_existing - added under the prefixed id; objective left/right/sum."""
+        R = op["right"]
+        prefix = op.get("prefix")
+        objective = op.get("objective", "left")
+        if prefix is not None and objective != "left":
+            return "unknown"  # which reaction the right objective lands on after prefixing is undocumented
+        if not op.get("inplace", True):
+            return "ok"  # left untouched; the result is judged separately
+        rmets = {m["id"]: m for m in R["mets"]}
+        added = {}
+        for x in R["rxns"]:
+            rid = x["id"]
+            if rid in self.rxns:
+                if prefix is None:
+                    continue
+                rid = f"{prefix}{rid}"
+                if rid in self.rxns or rid in added:
+                    return "unknown"
+            added[rid] = x
+        for rid, x in added.items():
+            mets = {}
+            for mid, c in x["mets"]:
+                if mid not in self.mets:
+                    m = rmets[mid]
+                    self.mets[mid] = {"name": m.get("name", ""), "formula": m.get("formula"), "charge": m.get("charge"),
+                                      "compartment": m.get("compartment"), "notes": {}, "annotation": {}}
+                mets[mid] = c
+            self.rxns[rid] = {"lb": x["lb"], "ub": x["ub"], "mets": mets, "rule": copy.deepcopy(x.get("tree")),
+                              "name": x.get("name", ""), "subsystem": x.get("subsystem", ""), "notes": {}, "annotation": {}}
+            self._ensure_genes(x.get("tree"))
+        if objective == "right":
+            if self.obj is None:
+                return "unknown"
+            self.obj = {k: v for k, v in R["objective"].items() if k in self.rxns}
+            self.direction = R.get("direction", "max")
+        elif objective == "sum":
+            if self.obj is None or not (self.direction == "max" and R.get("direction", "max") == "max"):
+                return "unknown"  # the direction of a sum of objectives with different/min directions is undocumented
+            for k, v in R["objective"].items():
+                if k in self.rxns:
+                    self.obj[k] = self.obj.get(k, 0) + v
+            self.obj = {k: v for k, v in self.obj.items() if v != 0}
         return "ok"
 
     def t_restart(self, op, env):
